@@ -26,7 +26,8 @@ CHECKS = {
                  'and the published pointer is traced back to that thread-local RefCell, (3) error_description reads nothing but its argument, '
                  '(4) throw_err is called only with the payload of an Err, so the slot changes only on a failure of the calling thread. '
                  'and no body that stores to the slot is reachable from the C table once throw_err is cut out of the call graph. '
-                 'Under Rust TLS semantics no other thread can reach the slot, so all schedules are covered without enumerating any.'),
+                 'Under Rust TLS semantics no other thread can reach the slot, so all schedules are covered without enumerating any.'
+             ' The body that stores the description cannot reach its return without storing (what is retrieved is the most recent failure).'),
         'note': 'Trusted: rustc MIR/trait resolution, Rust thread_local semantics, the rule engines. Assumes a hook does not hand a CErr pointer to another thread.',
     },
 }
@@ -49,7 +50,8 @@ CHECKS['C03'] = {
     'text': ('Decides structural necessary conditions, for all paths: (a) in every body that moves a cursor, advances (offset <- Some(offset_next)) and rrs_left decrements are paired on every path '
              'to every exit and each decrement is dominated by the rrs_left == 0 test; (b) none of the accessors / next* / into_iter_* can reach a store to or a mutable borrow of any ParsedPacket field; '
              '(d) ResponseIterator::next is next_including_opt followed by a skip that advances only under rr_type() == Type::OPT. '
-             'Does NOT decide that the values returned equal an independent decode for every accepted packet, nor panic-freedom of the trusted readers (run-time invariants of accepted packets).'),
+             'Does NOT decide that the values returned equal an independent decode for every accepted packet, nor panic-freedom of the trusted readers (run-time invariants of accepted packets).'
+             ' (f) a step function returns None only on the true side of a `<header count | edns_count | rrs_left> == 0` test.'),
     'note': 'Structural clauses only; the behavioural equality with an RFC 1035 decode is not claimed. Trusted: rustc MIR, the rule engines.',
 }
 CHECKS['C08'] = {
@@ -61,7 +63,8 @@ CHECKS['C08'] = {
              '(d) each in-place decompression site takes the reference offset from offset(), stores the translated offset with set_offset before recompute_rr and calls recompute_sections; '
              '(e) RRIterator::recompute derives offset_next per section exactly as the iterator of that section does; (f) re-parse writers copy all five offsets from same-named fields, compare the EDNS summaries and install the parsed bytes; '
              '(h, E4) every closure that shifts a recorded offset in resize_rr / insert_rr returns x or x + the splice amount on each path, identity paths confined to offsets at or before the cursor, and the offset_edns closure of resize_rr distinguishes OPT before / behind the resized record; '
-             '(g) no operation returns Ok with the packet taken out. These are necessary conditions of "object view == fresh parse"; the equality itself over arbitrary operation sequences is a run-time relation and is NOT decided.'),
+             '(g) no operation returns Ok with the packet taken out. These are necessary conditions of "object view == fresh parse"; the equality itself over arbitrary operation sequences is a run-time relation and is NOT decided.'
+             ' (i) no cursor position read before the packet is replaced by its decompressed form is used after the replacement.'),
     'note': 'Structural clauses only. Known unclaimed corner: in-place decompression under an EDNS-option cursor (D19, DESIGN.md section 5). Trusted: rustc MIR, the rule engines.',
 }
 CHECKS['C10'] = {
@@ -82,7 +85,8 @@ CHECKS['C11'] = {
              'exactly one rrcount_dec of the section obtained from current_section, and the start offset of that very section is cleared exactly under the count <= 0 test; (b) in every next*: the unwrap of the section start is dominated by '
              'the count == 0 -> None test on the current header count and rrs_left is re-initialised only under offset.is_none(); (c) advances and rrs_left decrements are paired on all paths (termination measure). '
              'Which records are yielded/survive for every deletion pattern is a run-time sequence property and is NOT decided.'
-             ' (d) in delete the cursor offset is tested (VoidRecord) before any destructive event and before any unwrap/expect of it, in the ok_or, match and is_some forms.'),
+             ' (d) in delete the cursor offset is tested (VoidRecord) before any destructive event and before any unwrap/expect of it, in the ok_or, match and is_some forms.'
+             ' (e) current_section answers only sections rrcount_dec has an arm for, each non-Question verdict dominated by offset >= that section\'s start.'),
     'note': 'Structural clauses only. Trusted: rustc MIR, rule engines.',
 }
 CHECKS['C12'] = {
@@ -103,7 +107,8 @@ CHECKS['C09'] = {
              '(c) insertion_offset consults exactly the later sections\' offsets in wire order; insert_rr per Section records its own start and shifts exactly the later offsets plus offset_edns; (d) exactly one rrcount_inc of the section argument on every successful path; '
              '(e) insert_rr / set_raw_name / delete resize the buffer or overwrite name bytes only on paths where maybe_compressed is known false (so no other record\'s pointer is invalidated). '
              'The splice geometry (C09.a) is decided by the E4 clause when built. Byte identity of all other records after an operation is a run-time equality and is NOT decided.'
-             ' (a-offsets, E4) the closures shifting recorded offsets add exactly the splice amount with the right confinement to the cursor; (d-delete) delete lowers the count of the section determined before the splice.'),
+             ' (a-offsets, E4) the closures shifting recorded offsets add exactly the splice amount with the right confinement to the cursor; (d-delete) delete lowers the count of the section determined before the splice.'
+             ' (d-sections) current_section answers only sections the count helpers handle, each verdict guarded by that section\'s start offset.'),
     'note': 'Structural clauses only. Trusted: tables/rfc_layout.json, rustc MIR, rule engines.',
 }
 CHECKS['C04'] = {
@@ -115,7 +120,8 @@ CHECKS['C04'] = {
              'new() starts with 512 and None; parse() copies each summary into the same-role ParsedPacket field; (c) edns_count is zeroed and incremented exactly once per skipped option on every successful path; '
              '(d) the three question getters read type/class at (0,2)/(2,2) behind a position derived from the wire length of the name, never from its decompressed length. '
              '(e) the name component of every (name,type,class) the question getters build comes from the pointer-following decoder applied to (packet(), offset_question) or from the cache, raw copies only where maybe_compressed is known false. '
-             'The three textual forms of the question name (loops over labels) are NOT decided.'),
+             'The three textual forms of the question name (loops over labels) are NOT decided.'
+             ' The five OPT getters are evaluated bit for bit (E3 with enum values) against the RFC 6891 fields.'),
     'note': 'Trusted: tables/rfc_layout.json and the bit specs, analysis/bits.py, rustc MIR.',
 }
 CHECKS['C01'] = {
@@ -147,7 +153,8 @@ CHECKS['C15'] = {
              '(c) from_raw_parts_mut on caller pointers is dominated by a capacity test, name copy-outs are length-tested against 255 and NUL-terminated at index == length, raw_packet tests the capacity before copying, optional (ptr,len) pairs become Some only when non-null and non-empty; '
              '(d) every int-returning entry returns 0 on the native Ok path and throw_err(..) (= -1, out-pointer stored only if non-null) on the Err path. '
              'Equality of results with the native API over whole hook scripts is NOT decided (it follows from thinness only informally).'
-             ' (e) CErr\'s field is a CString which throw_err replaces by whole assignment with CString::new(<the reported error>.to_string()), never through a mutable borrow.'),
+             ' (e) CErr\'s field is a CString which throw_err replaces by whole assignment with CString::new(<the reported error>.to_string()), never through a mutable borrow.'
+             ' For the value getters every source of the result must be the native call; the description store in throw_err cannot be skipped.'),
     'note': 'Trusted: clang 14 AST, tables/fn_table_map.json, rustc MIR. Fixed-size array parameters are bounds-checked by Rust itself once their sizes match the header (checked).',
 }
 CHECKS['C14'] = {
@@ -156,7 +163,8 @@ CHECKS['C14'] = {
     'design_ref': 'DESIGN.md section 4, C14',
     'text': ('Decides for every input string: (a) the conversion cannot panic (slice ranges, u8 counter overflow), the one obligation needing label_start <= len discharged by a checked structural lemma; '
              '(b) every label length byte it emits lies in [1, 62] (exactly the documented limit, hence never a pointer marker) and the terminator is 0; (c) every Ok exit leaves at most 253 bytes in the output buffer. '
-             'NOT decided: that the emitted labels are exactly the dot-separated input labels (needs the invariant label_len = i - label_start, which the domain does not derive), the read-back through raw_name_to_str, and the exact accepted language.'),
+             'NOT decided: that the emitted labels are exactly the dot-separated input labels (needs the invariant label_len = i - label_start, which the domain does not derive), the read-back through raw_name_to_str, and the exact accepted language.'
+             ' (d) in name() and question() every decoded name passes the standard ASCII lower-casing on every path to the return.'),
     'note': 'Trusted: slice-iterator/enumerate/Vec contracts and the linear domain. The round-trip equality is a run-time relation.',
 }
 CHECKS['C02'] = {
@@ -167,7 +175,8 @@ CHECKS['C02'] = {
              'answer/authority loops unreachable when is_response is false (hypothesis run); per record type the exact consumption facts (A 4/14, AAAA 16/26, NS/CNAME/PTR and DNAME names filling rdlen exactly, MX name at +2, SOA two names + exactly 20 bytes, default 10+rdlen); '
              'OPT only in Additional with a 1-byte owner and at most once; limit constants 63 / 255 / 16 with the E4 ranges they produce; the label-byte predicate refuses exactly {0x00-0x1f, 0x7f, ., \\} (256-entry truth table) and DNAME has none; '
              'the name-bearing type sets of validator, decompressor, compressor and renamer coincide. '
-             'NOT decided: that these clauses together are the whole accepted language (both directions of the iff), "never to a root label", completeness beyond the numeric limits.'),
+             'NOT decided: that these clauses together are the whole accepted language (both directions of the iff), "never to a root label", completeness beyond the numeric limits.'
+             ' Also decided: every successful path of parse_opt raises the flag (edns_end = Some) that its only-one-OPT test reads.'),
     'note': 'Trusted: tables/policy.json, analysis/interp.py contracts, analysis/bits.py. Language equality is not a static object; only its visible clauses are claimed.',
 }
 CHECKS['C05'] = {
@@ -196,7 +205,8 @@ CHECKS['C07'] = {
     'text': ('Decides: (a) the data lengths the renamer writes for NS/CNAME/PTR, MX and SOA provably equal the bytes emitted behind the record header; (b) it rewrites names in exactly the validator\'s name-bearing types and copies header + rdlen bytes otherwise; '
              '(c) OPT is carried once, in place: the additional section is walked with OPT included (through the helper\'s parameter) and no copy from the input packet is open-ended; (d) replace_raw refuses an over-long result only for names that matched (no Ok(None) behind the length test). '
              'Validation-before-commit is decided under C10.a. NOT decided: which names match (run-time comparison), identity-rename equality.'
-             ' (e) typestate over the label walk of replace_raw: a rewritten name is returned only on paths where name.len() - source.len() was found equal to a label boundary of the name.'),
+             ' (e) typestate over the label walk of replace_raw: a rewritten name is returned only on paths where name.len() - source.len() was found equal to a label boundary of the name.'
+             ' (f, E4) the bytes compared for a label are exactly the label_len bytes behind its length byte, aligned with the source (per-byte closure analysed for a generic index, or slices).'),
     'note': 'Helpers above the size threshold are havocked for the accounting. Trusted: analysis/interp.py contracts.',
 }
 CHECKS['C13'] = {
